@@ -13,16 +13,16 @@ exec(open(os.path.join(V, "tools", "checks_table.py")).read())
 
 # families added to the universes after the first build (rounds of seeded changes, mutation campaign); appended to the level text
 ADDED = {
-    "C01": "team-blocker cases; fractional resolutions (7.5 / 2.5 / 0.5 min) in both implementations with the slot-clock clause; projects starting exactly at a working slot (slot index 0); the 'wide' universe (two ten-task bases x every subset of <= 2/3 of 38 feature toggles - incl. order of writing, every statement written twice, nested days off, inherited values, typed container dates - compiled and pure-Python); duplicate local ids.",
+    "C01": "team-blocker cases; fractional resolutions (7.5 / 2.5 / 0.5 min) in both implementations with the slot-clock clause; projects starting exactly at a working slot (slot index 0); the 'wide' universe (two ten-task bases x every subset of <= 2/3 of 38 feature toggles - incl. order of writing, every statement written twice, nested days off, inherited values, typed container dates - compiled and pure-Python); duplicate local ids; a forward task whose bound lies inside slots held by a backward task.",
     "C02": "leave layouts beginning before the project start or ending inside a slot; zone written in single quotes; shift declared after use; three days off of one kind written in every order; nested / touching / hour-boundary days off; group calendars overridden by a member's shift or plain hours; group leaves next to own leaves; a shift ending exactly at 0:00; the 'wide' universe.",
     "C03": "team blockers; team limits at task / group / member / grand-group / container / member-restricted placements; two alternatives; mixed-efficiency team clause; the 'wide' universe.",
-    "C04": "shape S6 (thorough); 'precedes' with options; one depends statement per predecessor; gaps in every unit incl. months and years (26-month window); gaplength; the same predecessor at two levels / stated twice / via precedes and depends; a predecessor exactly on the project start; the 'wide' universe.",
-    "C05": "limits in minutes / days / weeks; a daily AND a weekly limit on one entity; grand-group / grand-container placements; 50-minute resolution; restricted entries naming resources declared later (task tree written first); a limited group that is also named as an alternative; mode B histories on the bare Limits object; the 'wide' universe.",
-    "C06": "backward milestones; milestones behind dated containers; milestones inside dated containers (inherited lower bound); clauses frame-overlap and sliver; team blockers; the 'wide' universe.",
+    "C04": "shape S6 (thorough); 'precedes' with options; one depends statement per predecessor; gaps in every unit incl. months and years (26-month window); gaplength; the same predecessor at two levels / stated twice / via precedes and depends; a predecessor exactly on the project start; mixed-direction chains inside a dated container; the 'wide' universe.",
+    "C05": "limits in minutes / days / weeks; a daily AND a weekly limit on one entity; grand-group / grand-container placements; 50-minute resolution; restricted entries naming resources declared later (task tree written first); a limited group that is also named as an alternative; an empty limits block in between; a resource booked by a forward and a backward task; mode B histories on the bare Limits object; the 'wide' universe.",
+    "C06": "backward milestones; milestones behind dated containers; milestones inside dated containers (inherited lower bound); clauses frame-overlap and sliver; team blockers; implicit milestones; mixed directions (family mixend; family mixdir = open finding D69); the 'wide' universe.",
     "C07": "container predecessors; the 'wide7' family (ten-task core-dialect bases x subsets of 35 toggles incl. DST window, night shift, minute-valued limits, eleven top-level tasks) in both implementations.",
-    "C08": "patterns gapchain / nestends / mid-hour bounds; clause idle-bound-slot; gaplength at fine resolutions; an option entry before a plain entry; two successors with different gaps; leave layouts of C02; the 'wide' universe.",
-    "C09": "special intruders (dependent, ALAP, milestone, 40 h), two scenarios, container-predecessor bases; the 'wide9' family (also an added task that repeats an existing id); the 'inhprio' family (added priority between a container's and its leaves'); the 'alapext' family (open finding D55).",
-    "C10": "leaf kinds allocating a resource group (also as primary / alternative candidate); repeating local ids; a child that overrides the dated container's start; a second scenario in which one leaf cannot be scheduled; the 'wide' universe.",
+    "C08": "patterns gapchain / nestends / mid-hour bounds; clause idle-bound-slot; gaplength at fine resolutions; an option entry before a plain entry; two successors with different gaps; a forward-pinned task upstream of a backward anchor (clause idle-direction); leave layouts of C02; the 'wide' universe.",
+    "C09": "special intruders (dependent, ALAP, milestone, 40 h), two scenarios, container-predecessor bases; the 'wide9' family (also an added task that repeats an existing id); the 'inhprio' family (added priority between a container's and its leaves'); the 'msgate' and 'mixprio' families (containers of dated milestones; added backward task in a forward project and the mirror image); the 'alapext' family (open finding D55).",
+    "C10": "leaf kinds allocating a resource group (also as primary / alternative candidate); repeating local ids; a child that overrides the dated container's start; a second scenario in which one leaf cannot be scheduled; a backward leaf among forward siblings; the 'wide' universe.",
     "C11": "cycles x attached task kinds; alternative state vectors (ok / busy / never / slow / efficiency 0); later scenario bigger than the window; gaplength; macro rings; project durations in every unit; contradictory and barely-outside typed dates; efforts and gaps of thousands of years; 2 / 3 / 18 statements of each list-like kind in one body; mixed allocate statements; the contiguous flag x efficiency 0; runs without a standard error; 11 corpus texts.",
     "C12": "operations engine / abort; 13 probes incl. two that use another probe's macros without defining them, calendar and macro variants of one project; every probe also in fresh processes under other time zones and the plain C locale; six hash-order probes (two with everything named twice) under hash seeds 0..7 (thorough 0..31).",
     "C13": "resolutions that do not divide a day and 7.5 min; unsorted interval sets; TZ-environment grids; the far grid (90-year window); every whole-minute resolution 1..120 at slot starts; the 'wide' universe.",
